@@ -239,7 +239,7 @@ pub fn run(ctx: Ctx) -> i32 {
     }
     report.run_probes(&replay);
     let tier = ctx.tier;
-    let per_dir = tier.pick(200u32, 2000u32);
+    let per_dir = tier.pick(1000u32, 4000u32);
     let bad = run_in_workers(&report, 16, std::time::Duration::from_secs(tier.pick(900, 7200)), &|report: &Report| {
         let cfg = crate::uper::value_cfg(report, true, tier);
         let jobs: Vec<(usize, usize)> = pairs.iter().flat_map(|(a, b)| [(*a, *b), (*b, *a)]).collect();
